@@ -140,7 +140,7 @@ def gen_rel(rng, k):
         transforms = {"pairwise_indices": {"alpha": [0.05, 0.2], "only_larger": False}}
     return survey_case("rel", k, sv, aliases=[v.alias for v in vs], layout=layout,
                        meas=u.pick_measures(rng, numeric), mask_size=rng.choice([0, 2, 5]), n=n,
-                       transforms=transforms)
+                       transforms=transforms, overlaps=(k % 3 != 0))
 
 
 def gen_single(rng, k):
@@ -295,6 +295,14 @@ def check_rel(case, stats=None):
     al, meas = case["aliases"], case["meas"]
     tv = sv.var(al[0])
     r3 = u.response(sv, al, meas)
+    # OVERLAP MEASURES (after seeded change C06-6: the valid-overlap plane of an MR TABLE dimension): when
+    # the columns variable is MR the 3-D response and every restricted 2-D response carry the overlap /
+    # valid_overlap measures of that variable, so the subvariable pairwise test of partition k must be the
+    # one of the restricted respondents
+    with_ov = bool(case.get("overlaps")) and sv.var(al[-1]).kind == "mr" and tv.kind != "ca"
+    if with_ov:
+        from harness.props import c13_util as pu
+        pu.add_overlaps(r3, sv, al, bool(sv.weighted))
     tf = case.get("transforms")
     res = impl.guarded(lambda: lone(r3, mask_size=case["mask_size"], transforms=tf).partitions)
     if res[0] != "ok":
@@ -313,6 +321,8 @@ def check_rel(case, stats=None):
         sv2 = u.subvar_survey(sv, al[0], k) if ca_table else u.restrict(sv, al[0], k)
         al2 = al if ca_table else al[1:]
         r2 = u.response(sv2, al2, meas)
+        if with_ov:
+            pu.add_overlaps(r2, sv2, al2, bool(sv.weighted))
         q = impl.guarded(lambda: lone(r2, mask_size=case["mask_size"], transforms=tf).partitions[0])
         if q[0] != "ok":
             fails.append(fail("exception", where="restricted 2-D cube", got=q[1:]))
